@@ -4,6 +4,7 @@ package c14
 import (
 	"fmt"
 	"os"
+	"sort"
 	"strings"
 	"testing"
 
@@ -23,6 +24,9 @@ type Case struct {
 	Ops  []catalog.Op `json:"ops"`
 	Cut  int          `json:"cut"`
 	Used int          `json:"used"` // restore target applied Ops[:Used%..] before (0 = fresh)
+	// Pre: earlier cut points at which the SAME source manager already took a snapshot (a long-running node snapshots
+	// its catalogue again and again)
+	Pre []int `json:"pre,omitempty"`
 }
 
 func genCase(t *rapid.T) Case {
@@ -43,7 +47,8 @@ func genCase(t *rapid.T) Case {
 		return o
 	})
 	return Case{Ops: rapid.SliceOfN(op, 2, pbt.Pick(16, 40)).Draw(t, "ops"), Cut: rapid.IntRange(0, 100).Draw(t, "cut"),
-		Used: rapid.IntRange(0, 100).Draw(t, "used") * rapid.IntRange(0, 1).Draw(t, "useUsed")}
+		Used: rapid.IntRange(0, 100).Draw(t, "used") * rapid.IntRange(0, 1).Draw(t, "useUsed"),
+		Pre:  rapid.SliceOfN(rapid.IntRange(0, 100), 0, 2).Draw(t, "pre")}
 }
 
 func applyRange(r *catalog.Replica, ops []catalog.Op, lo, hi int, models []catalog.Model) *pbt.Failure {
@@ -146,7 +151,35 @@ func check(c Case, o *pbt.Obs) *pbt.Failure {
 		}
 	}
 	src := mk("R2src")
-	if f := applyRange(src, c.Ops, 0, cut, models); f != nil {
+	// earlier snapshots of the same manager, in log order
+	var pres []int
+	for _, p := range c.Pre {
+		pres = append(pres, p%(cut+1))
+	}
+	sort.Ints(pres)
+	at := 0
+	for _, p := range pres {
+		if f := applyRange(src, c.Ops, at, p, models); f != nil {
+			return f
+		}
+		at = p
+		if _, err := src.G.Snapshot(); err != nil {
+			return pbt.Failf("C14:snapshot-error", "snapshot after %d entries returned %v", p, err)
+		}
+		if p < cut {
+			o.Label("earlier-snapshot-by-the-same-manager")
+			replicaChange := false
+			for i := p; i < cut; i++ {
+				if c.Ops[i].K == catalog.OpAddNode || c.Ops[i].K == catalog.OpRemoveNode {
+					replicaChange = true
+				}
+			}
+			if replicaChange {
+				o.Label("replica-set-change-between-two-snapshots")
+			}
+		}
+	}
+	if f := applyRange(src, c.Ops, at, cut, models); f != nil {
 		return f
 	}
 	snap, err := src.G.Snapshot()
@@ -262,7 +295,7 @@ func cloneModel(m catalog.Model) catalog.Model {
 func TestCatalogueStateMachine(t *testing.T) {
 	pbt.Run(t, pbt.Prop[Case]{
 		ID: "C14", Name: "TestCatalogueStateMachine",
-		Rule:    "rapid-generated catalogue logs (create with 1-5 partitions and generated replica sets / delete / add-partition-node / remove-partition-node over 8 dataset ids, each created at most once as in production where ids are fresh UUIDs; deletes and replica changes of absent or deleted ids included) applied to real DatasetManager+Allocator+Conn objects over a scripted raft.Group (the manager's own registered process/snapshot/restore functions): R1 applies every entry and is compared with the sequential catalogue model after each one (id, dimension, metric, partition ids in order, node lists; Get of deleted ids = DatasetNotFoundErr); R2 = snapshot at a cut restored into a fresh manager or one that applied a shorter prefix, compared at once, then the rest; R3 = replay; non-trivial = an effective delete precedes the cut and >=2 datasets were created; distinct = distinct case JSON",
+		Rule:    "rapid-generated catalogue logs (create with 1-5 partitions and generated replica sets / delete / add-partition-node / remove-partition-node over 8 dataset ids, each created at most once as in production where ids are fresh UUIDs; deletes and replica changes of absent or deleted ids included) applied to real DatasetManager+Allocator+Conn objects over a scripted raft.Group (the manager's own registered process/snapshot/restore functions): R1 applies every entry and is compared with the sequential catalogue model after each one (id, dimension, metric, partition ids in order, node lists; Get of deleted ids = DatasetNotFoundErr); R2 = snapshot at a cut (taken by a manager that may already have taken 0-2 snapshots at earlier cuts) restored into a fresh manager or one that applied a shorter prefix, compared at once, then the rest; R3 = replay; non-trivial = an effective delete precedes the cut and >=2 datasets were created; distinct = distinct case JSON",
 		Journal: true,
 		Gen:     genCase,
 		Check:   check,
